@@ -35,6 +35,7 @@ import (
 	"github.com/bbva/qed/verifx/ev"
 	"github.com/bbva/qed/verifx/hx"
 	"github.com/bbva/qed/verifx/ref"
+	"github.com/bbva/qed/verifx/sx"
 )
 
 // ---------------------------------------------------------------- the log server (real balloon behind the real API mux)
@@ -652,6 +653,9 @@ func TestC19(t *testing.T) {
 		}
 		if r.Mine(li) {
 			publisher(r, w, lg.names, lg.comp)
+			if len(lg.comp) == len(lg.names) {
+				publisherConcurrent(r, w)
+			}
 		}
 		d.Close()
 	}
@@ -749,6 +753,106 @@ func publisher(r *ev.Run, w *world, names []string, comp []int) {
 				r.Distinct(fmt.Sprint("pub", c))
 			}
 		}
+	}
+}
+
+// ---------------------------------------------------------------- publisher tasks running concurrently
+//
+// The task manager runs every task in a goroutine of its own, so the publisher tasks of two
+// overlapping batches can interleave. Both tasks run as threads of the controlled scheduler; every
+// call of the agent's cache (Get, Set) and of the snapshot store (PutBatch) is a scheduling point.
+
+type ycache struct{ c gossip.Cache }
+
+func (y ycache) Get(k []byte) ([]byte, error) {
+	sx.Yield("cache.Get")
+	return y.c.Get(k)
+}
+func (y ycache) Set(k, v []byte, e int) error {
+	sx.Yield("cache.Set")
+	return y.c.Set(k, v, e)
+}
+
+type ystore struct{ *store }
+
+func (y ystore) PutBatch(b *protocol.BatchSnapshots) error {
+	sx.Yield("store.PutBatch")
+	return y.store.PutBatch(b)
+}
+
+type cscenario struct {
+	Ranges [][2]int `json:"batches"`
+}
+
+func publisherConcurrent(r *ev.Run, w *world) {
+	n := len(w.pub)
+	if n != 4 {
+		return
+	}
+	for _, sc := range []cscenario{{[][2]int{{0, 2}, {1, 3}}}, {[][2]int{{0, 1}, {1, 1}}}, {[][2]int{{0, 3}, {0, 3}}}, {[][2]int{{0, 1}, {2, 3}}}} {
+		sc := sc
+		body := func(x *sx.Exec) {
+			var pw *world
+			sx.Setup(func() {
+				var err error
+				pw, err = newWorld(w.d, w.d, w.digest)
+				if err != nil {
+					panic(err)
+				}
+				pw.agent.Cache = ycache{pw.agent.Cache}
+				pw.agent.SnapshotStore = ystore{pw.st}
+			})
+			var wg sx.WaitGroup
+			seen := map[string]bool{}
+			for i, rg := range sc.Ranges {
+				bt := cloneBatch(pw.pub[rg[0] : rg[1]+1])
+				for _, s := range bt.Snapshots {
+					seen[string(s.Signature)] = true
+				}
+				wg.Add(1)
+				sx.GoNamed(fmt.Sprintf("publisher-task%d", i), false, func() {
+					defer wg.Done()
+					ctx := context.WithValue(context.WithValue(context.Background(), "agent", pw.agent), "batch", bt)
+					cmd.VerifPublisherFactory().New(ctx)()
+				})
+			}
+			wg.Wait()
+			count := map[string]int{}
+			var shape []string
+			for _, bt := range pw.st.batches {
+				shape = append(shape, fmt.Sprint(len(bt.Snapshots)))
+				for _, s := range bt.Snapshots {
+					count[string(s.Signature)]++
+				}
+			}
+			sort.Strings(shape)
+			x.Observe(strings.Join(shape, "+"))
+			for sig := range seen {
+				if count[sig] == 0 {
+					x.Fail("the publisher never forwards a signed snapshot it received (concurrent tasks)", sc)
+				} else if count[sig] > 1 {
+					x.Fail("the publisher forwards the same signed snapshot more than once (two publisher tasks running concurrently)", sc)
+				}
+			}
+		}
+		e := &sx.Explorer{MaxBound: 2, MaxSteps: 2000, Body: body}
+		e.OnFailure = func(x *sx.Exec, f sx.Failure, schedule []int) {
+			x2, det := e.Replay(schedule)
+			if !det {
+				r.Violation("HARNESS: NONDETERMINISM replaying a failing schedule", map[string]interface{}{"scenario": sc, "schedule": schedule})
+				return
+			}
+			r.Violation(f.Sig, map[string]interface{}{"scenario": sc, "schedule": append([]int{}, schedule...), "trace": x2.Trace})
+		}
+		e.Run()
+		r.Eval(e.Execs)
+		r.States(e.Execs)
+		r.Transitions(e.PointsTotal)
+		r.Distinct(fmt.Sprint("publisher concurrent ", sc))
+		for k := range e.Outcomes {
+			r.Outcome("publisher concurrent " + k)
+		}
+		fmt.Printf("[c19] publisher tasks %v: execs=%d points=%d bound=%d outcomes=%d failures=%v\n", sc.Ranges, e.Execs, e.PointsTotal, e.BoundCompleted, len(e.Outcomes), e.Failures)
 	}
 }
 
